@@ -24,13 +24,13 @@ type Hash struct {
 	buf  []byte
 }
 
-func (h *Hash) SetSeed(s Seed)                  { h.seed = s; h.buf = h.buf[:0] }
-func (h *Hash) Seed() Seed                      { return h.seed }
-func (h *Hash) Reset()                          { h.buf = h.buf[:0] }
+func (h *Hash) SetSeed(s Seed)                    { h.seed = s; h.buf = h.buf[:0] }
+func (h *Hash) Seed() Seed                        { return h.seed }
+func (h *Hash) Reset()                            { h.buf = h.buf[:0] }
 func (h *Hash) WriteString(s string) (int, error) { h.buf = append(h.buf, s...); return len(s), nil }
-func (h *Hash) Write(b []byte) (int, error)     { h.buf = append(h.buf, b...); return len(b), nil }
-func (h *Hash) WriteByte(b byte) error          { h.buf = append(h.buf, b); return nil }
-func (h *Hash) Sum64() uint64                   { return Bytes(h.seed, h.buf) }
+func (h *Hash) Write(b []byte) (int, error)       { h.buf = append(h.buf, b...); return len(b), nil }
+func (h *Hash) WriteByte(b byte) error            { h.buf = append(h.buf, b); return nil }
+func (h *Hash) Sum64() uint64                     { return Bytes(h.seed, h.buf) }
 
 func Bytes(seed Seed, b []byte) uint64 {
 	f := fnv.New64a()
